@@ -33,6 +33,10 @@ def cases(tier, seed, args):
                         mean_scale=[1.0, 1.0, 1e4, 1e6][(i // 8) % 4], layout='CF'[(i // 16) % 2]))
         if out[-1]['layout'] == 'F' and (i // 32) % 2 == 0:
             out[-1]['L'] = [[2, 3], [3, 2], [2, 2]][(i // 64) % 3]      # two genuine leading axes: C and Fortran order differ
+    for i in range(14 if q else 84):
+        dist = ['gauss_full', 'gauss_diagonal', 'gauss_spherical', 'cgauss', 'bingham', 'watson', 'vmf'][i % 7]
+        out.append(dict(t='density', dist=dist, D=int(rng.integers(2, 5)), L=[int(rng.integers(1, 3)) for _ in range(int(rng.integers(0, 2)))],
+                        P=2, seed=int(rng.integers(1 << 30)), cond=10.0, kappa_exp=0.5, mean_scale=1.0, layout='C', int_params=True))
     # concentration sweeps of the directional normalisers: geometric grid over the whole admissible range, every dimension
     grid = np.geomspace(1e-6, 499.0, 32 if q else 128)
     for D in ((2, 4, 6) if q else (2, 3, 4, 5, 6)):
@@ -99,6 +103,33 @@ def run_case(case):
         lam = lam + np.arange(D)[::-1] * (-1e-3)          # gaps >= 1e-3
         lam = lam - lam.max(-1, keepdims=True)
         obj, e0 = call(ComplexBingham, covariance_eigenvectors=U, covariance_eigenvalues=lam)
+    if case.get('int_params') and obj is not None:
+        # integer-valued parameters handed over with an INTEGER dtype (lists of ints, label-like arrays): the same density
+        import dataclasses
+        ip = {}
+        if dist in ('gauss_full', 'gauss_diagonal', 'gauss_spherical', 'cgauss'):
+            a = rng.integers(-2, 3, size=(*L, D, D))
+            spd = a @ np.swapaxes(a, -1, -2) + 2 * np.eye(D, dtype=np.int64)
+            if dist == 'gauss_full':
+                ip = dict(mean=rng.integers(-3, 4, size=(*L, D)), covariance=spd)
+            elif dist == 'gauss_diagonal':
+                ip = dict(mean=rng.integers(-3, 4, size=(*L, D)), covariance=np.einsum('...dd->...d', spd).copy())
+            elif dist == 'gauss_spherical':
+                ip = dict(mean=rng.integers(-3, 4, size=(*L, D)), covariance=rng.integers(1, 5, size=L) if L else np.array(3))
+            else:
+                ip = dict(covariance=spd)
+            if 'mean' in ip:
+                y = y - mean[..., None, :] + ip['mean'][..., None, :]
+        elif dist == 'bingham':
+            ip = dict(covariance_eigenvectors=obj.covariance_eigenvectors,
+                      covariance_eigenvalues=np.broadcast_to(-np.cumsum(rng.integers(1, 4, size=D))[::-1] + 0, (*L, D)).copy())
+            ip['covariance_eigenvalues'] = ip['covariance_eigenvalues'] - ip['covariance_eigenvalues'].max(-1, keepdims=True)
+        elif dist in ('watson', 'vmf'):
+            ip = dict(**{('mode' if dist == 'watson' else 'mean'): getattr(obj, 'mode' if dist == 'watson' else 'mean')},
+                      concentration=(rng.integers(1, 40, size=L) if L else np.array(int(rng.integers(1, 40)))))
+        if ip:
+            obj, e0 = call(type(obj), **ip)
+            fp += ';int_params'
     if case.get('layout') == 'F' and obj is not None:
         # the same parameter values held in Fortran-ordered buffers (transposed views, loadmat output, einsum results)
         import dataclasses
